@@ -81,6 +81,16 @@ Rw(n, s) ==
       [] n.t = MT_TAG -> [n EXCEPT !.kids = <<Rw(n.kids[1], Mix(s, 1))>>]
       [] OTHER -> n
 
+(* The blocks array of a file (third member of the file array) with a definite length - what other writers produce and  *)
+(* the other branch of CdnsReader::read_block (Reader.tla) - in its preferred width (v = 0), widened (v = 1, 2), and the *)
+(* file array itself with an indefinite length (v = 3); nothing else changes.                                            *)
+DefBlocks(f, v) ==
+    IF f.t # MT_ARR \/ Len(f.kids) # 3 \/ f.kids[3].t # MT_ARR THEN f
+    ELSE LET b   == f.kids[3]
+             cnt == FromInt(Len(b.kids))
+             nb  == [b EXCEPT !.a = cnt, !.w = IF v % 4 = 0 THEN PrefW(cnt) ELSE IF v % 4 = 1 THEN WidenTo(cnt, 3) ELSE IF v % 4 = 2 THEN 8 ELSE PrefW(cnt)]
+         IN [f EXCEPT !.kids[3] = nb, !.w = IF v % 4 = 3 THEN -1 ELSE f.w]
+
 (* ------------------------------ mutations ------------------------------ *)
 RECURSIVE NodeCount(_)
 NodeCount(n) == 1 + (IF n.t \in {MT_ARR, MT_MAP, MT_TAG}
